@@ -209,6 +209,19 @@ func doHeaders(q hreq) hresp {
 			}
 			return hresp{Code: 0, Map: sortedPairs(m), Rest: hex.EncodeToString(mem.Bytes())}
 		})
+	case "read_req":
+		// the same header block read through the public API: FProtocol.ReadRequestHeader -> FContext
+		b, _ := hex.DecodeString(q.Bytes)
+		return guarded(func() hresp {
+			mem := &thrift.TMemoryBuffer{Buffer: bytes.NewBuffer(b)}
+			proto := frugal.NewFProtocolFactory(thrift.NewTBinaryProtocolFactoryConf(nil)).GetProtocol(mem)
+			ctx, err := proto.ReadRequestHeader()
+			if err != nil {
+				return hresp{Code: classify(err), Msg: err.Error()}
+			}
+			return hresp{Code: 0, Map: sortedPairs(ctx.RequestHeaders()), Order: sortedPairs(ctx.ResponseHeaders()),
+				Rest: hex.EncodeToString(mem.Bytes())}
+		})
 	case "read_frame":
 		b, _ := hex.DecodeString(q.Bytes)
 		return guarded(func() hresp {
